@@ -19,6 +19,7 @@ type target struct {
 	unknown *Term
 	sig     *types.Signature
 	name    string
+	vtype   types.Type // static type of an unknown function value
 }
 
 func (x *Exec) resolveCall(cfg *Config, f *Frame, common *ssa.CallCommon) (target, []Val) {
@@ -60,7 +61,7 @@ func (x *Exec) resolveCall(cfg *Config, f *Frame, common *ssa.CallCommon) (targe
 			return target{fn: known.Fn, binds: known.Binds, sig: sig, name: fullKey(known.Fn)}, args
 		}
 		t := c.T
-		return target{unknown: &t, sig: sig, name: x.nameOf(common.Value)}, args
+		return target{unknown: &t, sig: sig, name: x.nameOf(common.Value), vtype: common.Value.Type()}, args
 	}
 	unsupported("call of %T", val)
 	return target{}, nil
@@ -328,10 +329,52 @@ func sanitize(s string) string {
 // isPureRole: function values of the named type dt/cmp.LessThan are pure
 // total functions of their arguments (declared role, see DESIGN 7/C17).
 func (x *Exec) isPureRole(tg target) bool {
-	return false
+	return tg.vtype != nil && x.pureRoleName(tg.vtype) != ""
 }
 
-func (x *Exec) pureApply(cfg *Config, tg target, args []Val) Val { return nil }
+// pureRoleName: "purerole cmp.LessThan" in a contract file declares that
+// values of that named function type are pure, total, deterministic functions
+// of their arguments.
+func (x *Exec) pureRoleName(t types.Type) string {
+	nt, ok := t.(*types.Named)
+	if !ok {
+		return ""
+	}
+	name := typeName(nt)
+	for _, cf := range x.P.Contracts {
+		for _, raw := range cf.Raw["purerole"] {
+			if strings.TrimSpace(raw) == name {
+				return name
+			}
+		}
+	}
+	return ""
+}
+
+// pureFun is the uninterpreted function standing for the application of a
+// pure-role function value: (function value, arguments...) -> result.
+func (x *Exec) pureFun(role string, args []Term, ret Sort) func(...Term) Term {
+	sorts := []Sort{SInt}
+	for _, a := range args {
+		sorts = append(sorts, a.Sort)
+	}
+	x.usedTrusted["function values of type "+role+" are pure, total and deterministic (declared role)"] = true
+	return x.d.Fun("purerole!"+role, sorts, ret)
+}
+
+func (x *Exec) pureApply(cfg *Config, tg target, args []Val) Val {
+	role := x.pureRoleName(tg.vtype)
+	var ats []Term
+	for _, a := range args {
+		ats = append(ats, x.tv(a))
+	}
+	if tg.sig.Results().Len() != 1 {
+		unsupported("pure role %s with %d results", role, tg.sig.Results().Len())
+	}
+	rt := tg.sig.Results().At(0).Type()
+	f := x.pureFun(role, ats, x.sortOf(rt))
+	return TV{T: f(append([]Term{*tg.unknown}, ats...)...)}
+}
 
 // traceCall counts executions of unknown function values (ghost calls(f)).
 func (x *Exec) traceCall(cfg *Config, tg target, args []Val) {
